@@ -39,6 +39,18 @@ Theorem C14_get_functions_chain : forall (A : Type) (l : list A) (P : Z),
 Proof. exact @get_functions_chain. Qed.
 Print Assumptions C14_get_functions_chain.
 
+(* test_all.get_functions, the shares: every rank but the last gets exactly k rows, where k is the greatest
+   integer <= ceil(N/P) with k (P-1) <= N, and the last rank gets the remaining N - (P-1) k rows. *)
+Theorem C14_get_functions_share : forall (A : Type) (l : list A) (P : Z),
+  1 <= P ->
+  let N := py_len l in
+  exists k, 0 <= k <= - ((- N) / P) /\ k * (P - 1) <= N /\
+    (k = - ((- N) / P) \/ N < (k + 1) * (P - 1)) /\
+    (forall r, 0 <= r < P - 1 -> gf_end l r P - gf_start l r P = k) /\
+    gf_end l (P - 1) P - gf_start l (P - 1) P = N - (P - 1) * k.
+Proof. exact @get_functions_share. Qed.
+Print Assumptions C14_get_functions_share.
+
 (* utils.split_idx, load balance: rank r owns N/P indices plus one when r < N mod P, so any two
    ranks differ by at most one index and no rank owns more than ceil(N/P). *)
 Theorem C14_split_idx_balanced : forall N P r : Z,
